@@ -163,11 +163,12 @@ int main(int argc, char **argv) {
 		else if (!strcmp(cmd, "flush")) { bidib_flush(); }
 		else if (!strcmp(cmd, "mark")) { outf("mark %s\n", na ? a[0] : ""); }
 		else if (!strcmp(cmd, "send")) {
-			/* send <top> <sub> <subsub> <type> <data-hex|-> */
+			/* send <top> <sub> <subsub> <type> <data-hex|-> [action id] */
 			uint8_t addr[4] = {(uint8_t)atoi(a[0]), (uint8_t)atoi(a[1]), (uint8_t)atoi(a[2]), 0};
 			uint8_t type = (uint8_t)atoi(a[3]); int n = parse_hex(a[4], bytes, 255);
-			if (n == 0) bidib_buffer_message_without_data(addr, type, 0);
-			else bidib_buffer_message_with_data(addr, type, (uint8_t)n, bytes, 0);
+			unsigned int action = na > 5 ? (unsigned int)atoi(a[5]) : 0;
+			if (n == 0) bidib_buffer_message_without_data(addr, type, action);
+			else bidib_buffer_message_with_data(addr, type, (uint8_t)n, bytes, action);
 		}
 		else if (!strcmp(cmd, "seqon")) { bidib_seq_num_enabled = atoi(a[0]) != 0; }
 		else if (!strcmp(cmd, "reset_nodes")) { bidib_node_state_table_reset(true); }
